@@ -31,9 +31,9 @@ ASSUMPTIONS = ['rescale > 0 (a scaling factor); the ordering / precision clauses
                'tolerance 1e-9 relative plus a conditioning term 2e-15 x (1 + (mean/sd of control)^2)']
 EXHAUSTIVE = {'quick': False, 'thorough': False}
 MINIMA = {'quick': {'explicit_period_checks': 60, 'refits': 100, 'fits': 600, 'days_checked': 4000, 'summary_rows_checked': 3000, 'variants_checked': 600,
-                    'tbrfit_checked': 500, 'tbrfit_after_reuse': 200, 'distinct_nontrivial': 500},
+                    'tbrfit_checked': 500, 'tbrfit_after_reuse': 200, 'tbrfit_after_buffer_recycle': 150, 'distinct_nontrivial': 500},
           'thorough': {'explicit_period_checks': 1000, 'refits': 1500, 'fits': 10000, 'days_checked': 60000, 'summary_rows_checked': 50000, 'variants_checked': 10000,
-                       'tbrfit_checked': 8000, 'tbrfit_after_reuse': 3000, 'distinct_nontrivial': 8000}}
+                       'tbrfit_checked': 8000, 'tbrfit_after_reuse': 3000, 'tbrfit_after_buffer_recycle': 2500, 'distinct_nontrivial': 8000}}
 N = {'quick': 720, 'thorough': 12000}
 
 
@@ -281,14 +281,24 @@ def run_case(spec):
   dmod = bootstrap.mm('tbrmmdiagnostics')
   sig = r.choice([0.9, 0.8, 0.95, 0.6])
   par = pmod.TBRMMDesignParameters(n_test=len(x_an), iroas=1.0, sig_level=sig)
-  diag = dmod.TBRMMDiagnostics(y_pre, par)
+  # the caller hands over float64 work buffers and recycles them afterwards (e.g. np.sum(..., out=work) per candidate)
+  wy = np.array(y_pre, dtype=float)
+  wx = np.array(x_pre, dtype=float)
+  recycle = r.random() < 0.5
+  diag = dmod.TBRMMDiagnostics(wy, par)
+  if recycle and r.random() < 0.5:
+    wy[:] = wy[::-1] * 0.5 + 3.0
   if r.random() < 0.6:
     # the documented usage pattern re-uses one object across control series: fit a decoy control first
     decoy = x_pre[::-1] * r.choice([0.5, 2.0, 1.0]) + r.choice([0.0, 7.0])
     diag.x = decoy
     util.call(diag.tbrfit, float(np.mean(x_an)) + 1.0, float(np.mean(y_an)))
     counters['tbrfit_after_reuse'] += 1
-  diag.x = x_pre
+  diag.x = wx
+  if recycle:
+    wx[:] = wx[::-1] * 3.0 + 1.0
+    wy[:] = 0.0
+    counters['tbrfit_after_buffer_recycle'] += 1
   tf = util.call(diag.tbrfit, float(np.mean(x_an)), float(np.mean(y_an)))
   counters['tbrfit_checked'] += 1
   if not tf.ok:
